@@ -90,741 +90,617 @@ trueish
 ,
     }
 ")).
-Eval vm_compute in ("<<<M149>>>" ++ check (runes_of_ascii "// trailing space 
-packet
-    charz {	@calculatedFrom( ""1""
-)match x
-as tag
-    {	[
-7 , // @lengthOf(
-0
-, 65535	,
-    // `tick` ""quote"" 'q'
-    ""it's""/// triple
-,0
-    ,
-""x y"", 255 ] :tag  , [ ""1"" // a // b
-, //	t
-3  , 007, // " ++ [27880; 37322]%N ++ runes_of_ascii "
-255 ,  ""x y""
-    // @lengthOf(
-    ] :pack ,[""" ++ [233]%N ++ runes_of_ascii "t" ++ [233]%N ++ runes_of_ascii """	, 7  , 10  , 3
-, 0
-    , ""a\""b"" ] :
-    // packet A { u8 x, }
-    leftPad, [ 65535
-    // " ++ [27880; 37322]%N ++ runes_of_ascii "
-    ,
-""x y""]
-: chars [ ""\n"" ,65535 , ""a\\""
-] :
-A	, ""\n"" :
-    lengthOf , } ,
-match string_
-    as	i8i8 { 7 :msg_type , // c
-""abc"" :
-tag ,""a\""b"" :metadata, 255
-    : matchKey	,
-    [""CRC32"" ,""1""
-// " ++ [27880; 37322]%N ++ runes_of_ascii "
-// " ++ [128512]%N ++ runes_of_ascii " emoji
-, 007 , ""packet"" ,""a\\"" /// triple
-,	""a\""b""
-    // " ++ [128512]%N ++ runes_of_ascii " emoji
-    , 007 , 4294967296 ] : lengthOf , }
-,uint16
-pack , string Pad@lengthOf( o ) `say ""hi""` ,repeat i8 body
-    ,
-@lengthOf( //x
-crc ) float64 body `// not a comment`
-, repeat rootA { int16 x_y_z `tab	here` ,
-falsey @calculatedFrom( ""{,}"" ), trueish @lengthOf(
-crc) `{ , }` , }
-, match Pad as
-Header
+Eval vm_compute in ("<<<M96>>>" ++ check (runes_of_ascii "packet  int//x
 {
-    4294967296: Header,""\n"" :msg_type,""a	b"" :
-    x_y_z
-    , }
-,
-    //	t
-    Logon
-, } 	 ")).
-Eval vm_compute in ("<<<M13>>>" ++ check (runes_of_ascii "root
-    packet	roots{ // `tick` ""quote"" 'q'
-} options	{	asx =
-    ""\n"" ; x_y_z =
-3 ;rootA = ""CRC32""
-    ;float=char  T = false
-; }
-packet falsey {
-body { match u8x as /// triple
-string_{ [
-42,7 ,65535
-    ,
-    3 ,
-    42 ,7 , ""1""
-    , ""packet"" ]:
-    // `tick` ""quote"" 'q'
-    i64_ , [ ""abc""]
-    :  Foo ,	""a\\""
-    :
-roots ,
-    4294967296 :	stringy	}
-    , //x
-asx
-`{ , }` // " ++ [128512]%N ++ runes_of_ascii " emoji
-, i8
-charz@lengthOf( // trailing space 
-x_y_z)// trailing space 
-`a\` ,}
-    // @lengthOf(
-    , @tag( 65535 ) i64_ @lengthOf( tag )`u8 x,`
-// a // b
+// " ++ [128512]%N ++ runes_of_ascii " emoji
 //	t
-,Z9_@lengthOf( int )
-, @calculatedFrom( ""a\""b""
-)uint16  stringy @lengthOf( trueish ) , Logon	{string  Logon `say ""hi""` , packetx
-i64_ , match msg_type as	float
-{ ""\n"" : i64_,	[
-""" ++ [128512]%N ++ runes_of_ascii """
-    ]
+} packet Z9_ {
+    @tag(  1
+) @tag(00 ) zchar[ 0 ] trueish `// not a comment`
+, Header @lengthOf(
+repeatCount ) // `tick` ""quote"" 'q'
+,charz float`crlf
+line` , match
+lengthOf as	u
+    // c
+    { // `tick` ""quote"" 'q'
+65535  :
+    msg_type
+,""1""
 :
-metadata , // `tick` ""quote"" 'q'
-[
-// trailing space 
-// " ++ [128512]%N ++ runes_of_ascii " emoji
-10, ""1""  ]
-:zchar ,
-}
-    , //x
-}
-    //x
-    , Packet
-    @calculatedFrom(""CRC32"" ), }
-")).
-Eval vm_compute in ("<<<M1913>>>" ++ check (runes_of_ascii "  packet  // packet A { u8 x, }
-	tag {
-	@calculatedFrom( ""x y"" )
-    lengthOf
-	{options1 `
-`	,
-}
-
+    // " ++ [27880; 37322]%N ++ runes_of_ascii "
+    x
     ,
-@tag(
-
-    7 )
-
-    int{
-        //x
-  // " ++ [27880; 37322]%N ++ runes_of_ascii "
-char[ 007 ]	// `tick` ""quote"" 'q'
-
-	calculatedFrom
-@lengthOf(
-
-    metadata
-
-    ), tag 
-@lengthOf(
-
-    falsey  )
-    ,
-f32 
-// " ++ [128512]%N ++ runes_of_ascii " emoji
-	calculatedFrom
-    // `tick` ""quote"" 'q'
-
-	//
-		`{ , }` ,
-
-i8i8 {
-    string
-    i64_ @lengthOf(	asx  )`it's`,	u @calculatedFrom( ""\n"" ),
-
-    } 
-,	}
-    ,
-
-@calculatedFrom(	""abc"" 	 //
-	) 
-@leftPad
-    ( ' ' ) uint64	calculatedFrom
-
-    , 	 // " ++ [27880; 37322]%N ++ runes_of_ascii "
-  }  packet
-o {
-Header
-
-, @lengthOf( 
-i8i8
-
-) 
-float32
-Pad // c
-
-,char[ 42 ]
-
-    leftPad 
-@calculatedFrom(
-	"""" // " ++ [128512]%N ++ runes_of_ascii " emoji
-    	)  , @tag(
-255
-) body u	,
-
-}
-packet
-lengthOf{ 
-    // packet A { u8 x, }
-  // c
-  @tag(
-
-    255 //x
-	)
-char[ 
-0123456789	]
-o `
-`
-
-, 
-} ")).
-Eval vm_compute in ("<<<M1673>>>" ++ check (runes_of_ascii "packet
-
-    crc {@lengthOf( Header )
-repeat
-roots
-        // @lengthOf(
-  `a\`
-
-    ,@lengthOf( tag )
-
-match
-
-x
-    as
-
-    string_ {[
-""a\\""  ,
-""packet""
-] : 
-Header""// no comment"" 
-
-    /// triple
-    :
-
-    Logon 
-,
-
-    7	:	falsey , 
-7
-
-    : metadata 
-[
-
-7	, 
-00 
-]:
-
-    // `tick` ""quote"" 'q'
-	repeatCount 3 
-: u,}, 
-      //	t
-    	@lengthOf(
-u128  
-      //
-
-// " ++ [27880; 37322]%N ++ runes_of_ascii "
-  )
-
-@rightPad 
-(	'\x00'	// c
-    )
-    char[]  int
-,int16
-
-Packet
-@lengthOf(
-
-    string_)  ,trueish {repeat
-	crc{zchar
-	calculatedFrom	,
-}
-,} 
-,
-    // @lengthOf(
-	//x
-@rightPad(
-)repeat
-
-_x
-pack 	 // " ++ [27880; 37322]%N ++ runes_of_ascii "
-    	,	@lengthOf( 
+""a\""b"" : packetx , 10:
+msg_type """ ++ [128512]%N ++ runes_of_ascii """ :
+calculatedFrom [
+7 ,0	]
     // c
-
-// trailing space 
-  chars
-
-    )repeat	string_
-    {
-	repeat
-
-    uint8x
-
-`// not a comment`
-
-,}
-
-,
-
-    } ")).
-Eval vm_compute in ("<<<M1779>>>" ++ check (runes_of_ascii "root// c
-
-packet asx
-{ @rightPad(  ' '
-
-)
-@lengthOf(
-int) @tag( 0	)
-    u64 
-uint8x  @calculatedFrom(
-
-    ""packet""
-
-    ) ,
-uint32 i64_  , 
-    // c
-
-  repeat 
-options1
-o	,	match f32a
-
-as 	 /// triple
-falsey  // " ++ [27880; 37322]%N ++ runes_of_ascii "
-    { 42 : stringy
-    10 
-:As,
-    """"
-: Packet
-
-,}
-
-    , 
-@calculatedFrom(
-""it's"" )  // " ++ [128512]%N ++ runes_of_ascii " emoji
-f64
-a1, @lengthOf(tag
-)
-    match roots
-	as MetaDataX
-
-    { """ ++ [128512]%N ++ runes_of_ascii """
-:  f32a ,
-    ""\n""  : As [	255
-    ]:
-A
-
-    ,
-}
-
-    ,
-a1 
-@calculatedFrom(	""abc""
-
-)``
-    , 
-@rightPad 
-(
-)@rightPad( '\x00'
-
-)@calculatedFrom( ""CRC32""  )
-    body As
-    , }
-	root
-	packet
-
-    packetx	{ 
-    //x
-
-//
-  repeat	lengthOf	Logon `" ++ [28040; 24687; 31867; 22411]%N ++ runes_of_ascii "`  ,  //	t
-    	}
-")).
-Eval vm_compute in ("<<<M305>>>" ++ check (runes_of_ascii "packet
-pack{ u8 x ,
-char[
-    255 ]trueish
-@calculatedFrom(
-""// no comment"" ) `tab	here`,	@lengthOf( asx) repeat //
-zchar[
-0
-] stringy `
-`, @leftPad( '0' ) @calculatedFrom( // trailing space 
-""abc"" )
-    @calculatedFrom( ""it's""
-) char[] packetx@calculatedFrom( ""a	b"" ) `doc` , repeat string len
-    `two words`
-, uint16 matchKey
+    : // " ++ [128512]%N ++ runes_of_ascii " emoji
+u128 , }, string i8i8`{ , }` , } packet// @lengthOf(
+a1{ } root packet roots {
     @lengthOf(
-    asx ) ,zchar[ 0 ]
-x `it's` // trailing space 
-, }
-    packet packetx {body  , string trueish `" ++ [233]%N ++ runes_of_ascii "` , @tag(255 )
-@tag(
-3
+    // " ++ [128512]%N ++ runes_of_ascii " emoji
+    u )
+f64 Logon,@lengthOf(
+_x	) As
+    @calculatedFrom(""\n"" ) , @leftPad
 // packet A { u8 x, }
-//	t
-) @calculatedFrom(
-    ""\n"" ) repeat f64 roots// trailing space 
-`" ++ [233]%N ++ runes_of_ascii "`	, /// triple
-} 	 ")).
-Eval vm_compute in ("<<<M1358>>>" ++ check (runes_of_ascii "options {
-    StringPrefixLenType = u8;
-    ArrayPrefixLenType = u8;
-    FixedStringPadFromLeft = false;
-    FixedStringPadChar = ' ';
+// " ++ [27880; 37322]%N ++ runes_of_ascii "
+(  )repeatCount
+@calculatedFrom( ""{,}""
+)
+`tab	here`
+    // trailing space 
+    , @tag(
+    //x
+    42)char[
+1
+    ]T
+    `a\`
+,int64
+_x// packet A { u8 x, }
+, zchar[	4294967296
+    ]
+i64_ @lengthOf(  tag
+    //	t
+    )
+    `
+`
+    , @calculatedFrom(""a\""b""
+    //x
+    ) u8 len`it's` , @leftPad
+(
+) metadata@lengthOf(tag
+    ) `{ , }` ,@leftPad// packet A { u8 x, }
+( ' '
+) MetaDataX  {
+    repeat char[]	rootA
+    ,
+    // c
+    } ,i8 body ,}
+")).
+Eval vm_compute in ("<<<M1329>>>" ++ check (runes_of_ascii "options {
+    FixedStringPadFromLeft = true;
+    FixedStringPadChar = '0';
+}
+packet Leg {
+    InPrice0 {
+        repeat string clOrdID,
+        int16 msgKind,
+        zchar[5] Px,
+    },
+    i16 f1,
+    repeat f64 Side2,
+    string Acct,
+}
+packet Cancel {
+    zchar[4] clOrdID,
+    string seqNo,
+    Leg,
+    @leftPad('0') char[11] OrderId,
+}
+packet Quote {
+    repeat char[4] sym,
+    f64 OrderId,
+    repeat Leg,
+    repeat i64 f1,
+    int16 Note,
+    zchar[3] count,
+}
+root packet Ack {
+    @leftPad(' ') char[10] sym,
+    InPx60 {
+        Cancel,
+        repeat char[1] f1,
+        string Tail,
+        repeat InNote55 {
+            int8 count,
+            f64 f1,
+            repeat Cancel,
+        },
+        char[] tag7,
+        repeat string msgKind,
+    },
+    u8 lastPx,
+    match lastPx as Body {
+        152 : Quote,
+        173 : Cancel,
+        4 : Leg,
+    },
+    u16 Ref @calculatedFrom(""CRC32""),
+}
+")).
+Eval vm_compute in ("<<<M1857>>>" ++ check (runes_of_ascii "packet pack {
+    @lengthOf(Foo)
+    asx @lengthOf(_x),
+    u8 x_y_z `two words`,
+    repeat zchar[0] roots `
+    `,
+    lengthOf @calculatedFrom(""abc""),
+    @tag(3)
+    @rightPad(' ')
+    @calculatedFrom(""1"")
+    repeat uint64 i64_ `say ""hi""`,
+    @tag(007)
+    match roots as float {
+        ""a	b"" : lengthOf,
+        [
+            1, 42, ""\n"", ""a\""b"", ""\" ++ [233]%N ++ runes_of_ascii """,
+            ""1""
+        ] : msg_type,
+        """ ++ [128512]%N ++ runes_of_ascii """ : Foo,
+    },
+    T {
+        match Header as trueish {
+            [
+                0, 3, 00, 0123456789, ""{,}"",
+                ""1"", ""// no comment""
+            ] : As,
+        },
+    },
+    repeat char[10] o `
+    `,
+    @calculatedFrom(""`tick`"")
+    repeat crc {
+        repeatCount o,
+        u8x As,
+    },
+}
+
+packet pack {
+    @calculatedFrom(""" ++ [233]%N ++ runes_of_ascii "t" ++ [233]%N ++ runes_of_ascii """)
+    u32 f32a,
+}
+
+MetaData float {
+    u32 options1,
+}
+
+packet f32a {
+}")).
+Eval vm_compute in ("<<<M1347>>>" ++ check (runes_of_ascii "options {
+    StringPrefixLenType = u16;
+    ArrayPrefixLenType = u32;
+    FixedStringPadFromLeft = true;
+    FixedStringPadChar = '0';
+}
+packet Cancel {
+}
+packet Party {
+}
+packet Logon {
 }
 packet Ack {
-    char[] tag7,
-}
-packet Reject {
-    InSym61 {
-        repeat Ack,
-        zchar[4] f1,
-    },
 }
 packet Logout {
-    char[4] clOrdID,
-}
-root packet Cancel {
-    @leftPad(' ') char[10] price,
-    u8 x,
-    u32 venue @lengthOf(Body),
-    match x as Body {
-        [92, 175] : Logout,
-        26 : Reject,
-        144 : Ack,
+    repeat InSym87 {
+        InClordid94 {
+            string clOrdID,
+        },
+        string Px,
+        i16 Qty,
+        repeat InCount71 {
+            repeat Cancel,
+            uint16 Tail,
+            char[2] x,
+            repeat string Ref,
+        },
+        Cancel,
     },
-    u16 count @calculatedFrom(""CR\
+}
+root packet Order {
+    repeat string tag7,
+    @leftPad(' ') char[3] Px,
+    u8 Qty,
+    match Qty as Body {
+        [28, 62] : Logon,
+        148 : Ack,
+        88 : Party,
+        184 : Cancel,
+    },
+    u16 Note @calculatedFrom(""CR\
 C32""),
 }
 ")).
-Eval vm_compute in ("<<<M1235>>>" ++ check (runes_of_ascii "// top
-options
-    // c0
-{
-    // c1
-f32a
-    // c2
-=
-    // c3
-0
-    // c4
-}
-    // c5
-packet
-    // c6
-trueish
-    // c7
-{
-    // c8
-}
-    // c9
-MetaData
-    // c10
-_x
-    // c11
-{
-    // c12
-char[
-    // c13
-0123456789
-    // c14
-]
-    // c15
-zchar
-    // c16
-,
-    // c17
-string
-    // c18
-crc
-    // c19
-,
-    // c20
-char[
+Eval vm_compute in ("<<<M1402>>>" ++ check (runes_of_ascii "  // top
+  	options  // c0a
+		// c0b
+  {	// c1a
+    // c1b
+FixedStringPadChar  =  // c3
+'0'
+;
+	} 
+packet 
+  // c7
+Q // c8
+
+{// c9a
+
+// c9b
+
+zchar[  // c10a
+		// c10b
+
+	4 	 // c11
+]  // c12
+    	z  , 	 // c14
+	@rightPad( // c16
+
+	'\x00'
+	)	// c18a
+    // c18b
+
+  char[3	// c20a
+
+// c20b
+      ]
     // c21
-1
-    // c22
-]
-    // c23
-options1
+  n
+, 
+  // c23
+    char[
+
     // c24
+5 
+
+// c25
+    ]// c26
+
+d	// c27
+    ,
+} 	 // c29a
+      // c29b
+  root
+    // c30
+	packet	R 
+// c32
+	{  // c33
+    	Q
+
+    , // c35a
+// c35b
+
+	zchar[
+
+8 	 // c37
+] 	 // c38
+    top ,  // c40a
+  	// c40b
+    	repeat  
+  // c41
+  zchar[
+
+// c42
+2 
+    // c43
+	  ]	// c44a
+  // c44b
+    zs 
+
+// c45
+	,	// c46a
+
+	// c46b
+    	}	// c47")).
+Eval vm_compute in ("<<<M122>>>" ++ check (runes_of_ascii "
+packet u128  { // trailing space 
+string  Header `say ""hi""` , repeat crc
+f32a,
+    char[ 10
+    ] _x	,	@calculatedFrom( ""x y""	) repeat
+    //
+    charz	{
+    Logon @lengthOf(T) `crlf
+line`
+, repeat char[ // trailing space 
+0123456789 ]Z9_
+    `crlf
+line` ,
+    } ,
+    match Packet
+    as
+// " ++ [128512]%N ++ runes_of_ascii " emoji
+// `tick` ""quote"" 'q'
+float // a // b
+{
+    1
+:  lengthOf }  ,  MetaDataX , match x as
+u8x { 10 :crc } , } root packet // `tick` ""quote"" 'q'
+Header // a // b
+{ @calculatedFrom( ""{,}"") a1
+    {  char[
+    // packet A { u8 x, }
+    007 ] pack ,stringy //x
+zchar
+    , repeat
+char[]
+    // " ++ [128512]%N ++ runes_of_ascii " emoji
+    o `it's`	, } , }")).
+Eval vm_compute in ("<<<M1591>>>" ++ check (runes_of_ascii "options {
+    LittleEndian = false;
+    ArrayPrefixLenType = u8;
+    FixedStringPadFromLeft = true;
+    FixedStringPadChar = '0';
+}
+
+packet Heartbeat {
+    string lastPx,
+    uint8 Qty,
+    i64 Acct,
+    char[4] Ref,
+}
+
+packet Fill {
+    uint8 Ref,
+    Heartbeat,
+    f32 OrderId,
+    repeat f32 x,
+}
+
+root packet Order {
+    zchar[2] OrderId,
+    zchar[2] Acct,
+    zchar[1] Note,
+    zchar[9] Qty,
+    string price,
+    string tag7,
+    u32 x,
+    match x as Body {
+        123 : Fill,
+        112 : Heartbeat,
+    },
+    u32 seqNo @calculatedFrom(""CRC32""),
+}")).
+Eval vm_compute in ("<<<M1769>>>" ++ check (runes_of_ascii "packet Logon {
+    repeatCount {
+        BodyLength `crlf
+        line`,
+    },
+    zchar a1 `u8 x,`,
+    match Foo as Foo {
+        ""\n"" : i8i8,
+        [
+            ""abc"",
+            ""CRC32""
+        ] : crc,
+        [
+            3, 42, 1, 255, ""x y"",
+            ""`tick`"", ""a\""b"", ""CRC32""
+        ] : repeatCount,
+        [
+            1, 007, 007, 7, 255,
+            ""\n"", ""// no comment""
+        ] : uint8x,
+        00 : f32a,
+    },
+    // a // b
+    uint16 Pad @lengthOf(uint8x) `doc`,
+}")).
+Eval vm_compute in ("<<<M1297>>>" ++ check (runes_of_ascii "packet A { // c2a
+  // c2b
+u8
+    // c3
+a ,
+    // c5
+} // c6a
+  // c6b
+packet B // c8
+{ // c9
+u16
+    // c10
+b // c11
+, // c12
+} // c13a
+  // c13b
+root // c14a
+  // c14b
+packet // c15a
+  // c15b
+P
+    // c16
+{ u8 // c18a
+  // c18b
+K // c19
+, match // c21
+K // c22a
+  // c22b
+as // c23
+M // c24
+{ // c25a
+  // c25b
+1 : // c27a
+  // c27b
+A // c28a
+  // c28b
 ,
-    // c25
-uint8
-    // c26
-repeatCount
-    // c27
+    // c29
+1
+    // c30
+: B
+    // c32
+,
+    // c33
+} // c34a
+  // c34b
+,
+    // c35
+} ")).
+Eval vm_compute in ("<<<M1271>>>" ++ check (runes_of_ascii "options { // c1a
+  // c1b
+LittleEndian
+    // c2
+= // c3
+true // c4
+; } // c6a
+  // c6b
+packet B { u8 // c10a
+  // c10b
+a
+    // c11
+, // c12a
+  // c12b
+string // c13
+s // c14
+, } // c16
+root // c17a
+  // c17b
+packet
+    // c18
+P // c19
+{ u16 // c21
+L @lengthOf( B ) // c25a
+  // c25b
+, // c26a
+  // c26b
+B // c27a
+  // c27b
 ,
     // c28
-}
+u8
     // c29
+t // c30
+, // c31
+} // c32a
+  // c32b
 ")).
-Eval vm_compute in ("<<<M1192>>>" ++ check (runes_of_ascii "// top
-MetaData
+Eval vm_compute in ("<<<M236>>>" ++ check (runes_of_ascii "packet metadata{ //	t
+float64	body
+    @lengthOf( calculatedFrom ) , // a // b
+@tag(42
+    ) rootA ,
+    x_y_z u8x`// not a comment`
+    ,  @lengthOf(Pad)  match // " ++ [27880; 37322]%N ++ runes_of_ascii "
+packetx  as leftPad
+    {
+    //
+    65535 : tag ,
+""" ++ [128512]%N ++ runes_of_ascii """ :_x} , x_y_z  metadata , @tag(7 )int64 zchar @lengthOf(
+repeatCount ) `" ++ [233]%N ++ runes_of_ascii "`,@tag( 0123456789 ) repeat float chars ,	f32  MetaDataX
+,}")).
+Eval vm_compute in ("<<<M240>>>" ++ check (runes_of_ascii "
+packet BodyLength { repeatCount // packet A { u8 x, }
+`// not a comment`
+,
+@lengthOf( lengthOf	)  @tag( 65535
+    )@rightPad (
+// @lengthOf(
+//	t
+'0' )/// triple
+u8 Logon , } packet chars { o msg_type , @tag( 10)zchar[ 65535
+] f32a
+,repeat char[]
+i64_
+`
+` ,} root packet f32a { @tag( 255 )repeat u8 stringy, }
+")).
+Eval vm_compute in ("<<<M1481>>>" ++ check (runes_of_ascii "MetaData BodyLength{
+
+    uint16
+leftPad`" ++ [233]%N ++ runes_of_ascii "`	// a // b
+
+  ,
+    uint8x
+    asx
+    , len
+
+    lengthOf	`// not a comment`
+, string
+uint8x 
+`doc` ,
+}  options
+	{
+
+i8i8
+	=
+0 lengthOf=
+0123456789
+
+; }packet
+	uint8x {
+    @lengthOf( pack)	float64
+	u8x @lengthOf( 
+asx 	 //x
+	) ,
+} ")).
+Eval vm_compute in ("<<<M1291>>>" ++ check (runes_of_ascii "// top
+root
     // c0
-uint8x
+packet
+    // c1
+P // c2a
+  // c2b
+{ // c3
+u8 // c4
+s_u8 // c5a
+  // c5b
+, // c6
+repeat u8 // c8a
+  // c8b
+r_u8 // c9a
+  // c9b
+,
+    // c10
+u16 // c11a
+  // c11b
+b_len // c12a
+  // c12b
+, // c13a
+  // c13b
+} // c14a
+  // c14b
+")).
+Eval vm_compute in ("<<<M82>>>" ++ check (runes_of_ascii "packet metadata
+{int32 calculatedFrom , } options {} options { u128 = '\x00'	;
+    string_ =	""abc""
+    ; }root
+packet i8i8
+    {  @rightPad
+( '\x00' ) repeat	metadata { string_,
+    tag@lengthOf( falsey ) ,
+} ,//x
+}")).
+Eval vm_compute in ("<<<M1709>>>" ++ check (runes_of_ascii "// top
+options {
+    // c1
+    f32a = 0// c4
+}// c5
+
+packet trueish {
+}// c9
+
+MetaData _x {
+    char[0123456789] zchar,
+    string crc,
+    char[1] options1,
+    uint8 repeatCount,
+}// c29")).
+Eval vm_compute in ("<<<M1195>>>" ++ check (runes_of_ascii "// top
+packet
+    // c0
+body
     // c1
 {
     // c2
-char[]
+i32
     // c3
 f32a
     // c4
-`// not a comment`
+`{ , }`
     // c5
 ,
     // c6
-float32
+}
     // c7
-roots
+options
     // c8
-,
+{
     // c9
-char[
+}
     // c10
-7
-    // c11
-]
-    // c12
-u8x
-    // c13
-,
-    // c14
-zchar[
-    // c15
-10
-    // c16
-]
-    // c17
-f32a
-    // c18
-,
-    // c19
-u64
-    // c20
-pack
-    // c21
-,
-    // c22
-u16
-    // c23
-pack
-    // c24
-,
-    // c25
-}
-    // c26
 ")).
-Eval vm_compute in ("<<<M76>>>" ++ check (runes_of_ascii "packet rootA { repeat uint16 stringy `" ++ [233]%N ++ runes_of_ascii "`
-,body
-@lengthOf( stringy ) , int32 matchKey // " ++ [27880; 37322]%N ++ runes_of_ascii "
-,
-    @lengthOf(roots)@calculatedFrom( ""a\""b""
-) @leftPad(' ') i64
-    leftPad
-@lengthOf( repeatCount )
-`u8 x,` , //	t
-f64 len
-    @lengthOf( BodyLength// trailing space 
-) `// not a comment` , @rightPad
-(
-)
-    @leftPad ( '0')repeat
-string len
-, // c
-char[] chars `two words`	, } //	t")).
-Eval vm_compute in ("<<<M1866>>>" ++ check (runes_of_ascii "
-
-  root
-packet trueish// " ++ [128512]%N ++ runes_of_ascii " emoji
-  {char[]MetaDataX , @leftPad(
-
-    // trailing space 
-  '0'  )
-match float
-as
-        //x
-    // trailing space 
-    crc{	0123456789	:// " ++ [27880; 37322]%N ++ runes_of_ascii "
-	chars ,
-
-""{,}"": i8i8
-
-    ,  },	f32a 
-        // " ++ [128512]%N ++ runes_of_ascii " emoji
-  f32a  `tab	here`	,  // " ++ [128512]%N ++ runes_of_ascii " emoji
-      @lengthOf(
-
-Foo )
-Packet@calculatedFrom(
-    """ ++ [28040; 24687]%N ++ runes_of_ascii """
-)	`it's` ,
-
-    }
-")).
-Eval vm_compute in ("<<<M1191>>>" ++ check (runes_of_ascii "// top
-MetaData // c0
-uint8x // c1
-{ // c2
-char[] // c3
-f32a // c4
-`// not a comment` // c5
-, // c6
-float32 // c7
-roots // c8
-, // c9
-char[ // c10
-7 // c11
-] // c12
-u8x // c13
-, // c14
-zchar[ // c15
-10 // c16
-] // c17
-f32a // c18
-, // c19
-u64 // c20
-pack // c21
-, // c22
-u16 // c23
-pack // c24
-, // c25
-} // c26
-")).
-Eval vm_compute in ("<<<M182>>>" ++ check (runes_of_ascii "root packet int {match MetaDataX	as charz
-{ 255 :uint8x , 65535 : // @lengthOf(
-u128 ""\" ++ [233]%N ++ runes_of_ascii """
-:o,0123456789 : _x ""{,}"" :
-    matchKey
-// `tick` ""quote"" 'q'
-// `tick` ""quote"" 'q'
-[4294967296 ,"""" ,	10
-    ]: charz , }	, @lengthOf( roots
-) x @calculatedFrom( ""\n"" )
-    , i32
-    tag , }")).
-Eval vm_compute in ("<<<M1370>>>" ++ check (runes_of_ascii "options {
-    LittleEndian = true;
-}
-packet Logon {
-    u8 x,
-    string user,
-}
-packet Logout {
-    u16 reason,
-}
-packet Empty {
-}
-root packet Frame {
-    u16 MsgType,
-    u8 BodyLen @lengthOf(Body),
-    u8 flags,
-    Logon Body,
-    u32 trailer,
-}
-")).
-Eval vm_compute in ("<<<M1494>>>" ++ check (runes_of_ascii "MetaData chars {
-    uint64 A,
-    msg_type asx,
-    Z9_ a1,
-    stringy i64_ `doc`,
-}
-
-packet x_y_z {
-}
-
-options {
-    float = float32
-    rootA = false;
-    repeatCount = char[10];
-}
-
-packet Z9_ {
-    zchar[007] charz,
-}//x")).
-Eval vm_compute in ("<<<M311>>>" ++ check (runes_of_ascii "MetaData
-falsey { Header falsey
-`
-` , string Foo `" ++ [28040; 24687; 31867; 22411]%N ++ runes_of_ascii "`
-    // `tick` ""quote"" 'q'
-    ,falsey repeatCount , i8
-u , }
-packet A	{ match _x as T { 007: lengthOf// `tick` ""quote"" 'q'
-}, } 	 ")).
-Eval vm_compute in ("<<<M1860>>>" ++ check (runes_of_ascii "MetaData// a // b
-    o
-{ string Foo ,  } MetaData  msg_type{
-
-Header
-
-    len
-`" ++ [28040; 24687; 31867; 22411]%N ++ runes_of_ascii "`,
-
-} options	{tag
-
-='0'
-; o  =	""CRC32""
-; Logon
-	=
-""`tick`"" ; // a // b
-
-}
-")).
-Eval vm_compute in ("<<<M1432>>>" ++ check (runes_of_ascii "packet A {
-    match k as n {
-        [
-            1, 22, 4, 5, 7,
-            8, 10, 11, ""c c"", ""f"",
-            ""i""
-        ] : B,
-        2 : C,
-    },
-}")).
-Eval vm_compute in ("<<<M651>>>" ++ check (runes_of_ascii "// @lengthOf(
-packet i8i8 { u128 o , }
-options { MetaDataX MetaDataX = true;
-    BodyLength =""packet"" x_y_z= 007
-crc //x
-= ""abc"" ;
-    msg_type =
-i16 }")).
-Eval vm_compute in ("<<<M1706>>>" ++ check (runes_of_ascii "MetaData o {
-    string Foo,
-}
-
-MetaData msg_type {
-    Header len `" ++ [28040; 24687; 31867; 22411]%N ++ runes_of_ascii "`,
-}
-
-options {
-    tag = '0';
-    o = ""CRC32"";
-    Logon = ""`tick`"";// a // b
-}")).
-Eval vm_compute in ("<<<M462>>>" ++ check (runes_of_ascii "packet uint8x
-{ match pack
-    as msg_type	{
-    0123456789 :	float
-}
-,
-} a1 //	t
-packet
-    { } options {packetx
-    = '\x00'	; u128= ""a	b""  ; }
-")).
-Eval vm_compute in ("<<<M515>>>" ++ check (runes_of_ascii "packet uint8x
+Eval vm_compute in ("<<<M501>>>" ++ check (runes_of_ascii "packet uint8x
 { match pack
     as msg_type	{
     0123456789 :	float
@@ -833,208 +709,307 @@ Eval vm_compute in ("<<<M515>>>" ++ check (runes_of_ascii "packet uint8x
 } packet //	t
 a1
     { } options {packetx
-    = '\x00'	; u128 ""a	b""  ; }
+    = '\x00' '\x00'	; u128= ""a	b""  ; }
 ")).
-Eval vm_compute in ("<<<M1686>>>" ++ check (runes_of_ascii "// top
-MetaData uint8x {
-    char[] f32a `// not a comment`,
-    float32 roots,
-    char[7] u8x,
-    zchar[10] f32a,
-    u64 pack,
-    u16 pack,
-}")).
-Eval vm_compute in ("<<<M723>>>" ++ check (runes_of_ascii "// @lengthOf(
-packet i8i8 { u128 o , }
-options { MetaD?ataX = true;
-    BodyLength =""packet"" x_y_z= 007
-crc //x
-= ""abc"" ;
-    msg_type =
-i16 }")).
-Eval vm_compute in ("<<<M709>>>" ++ check (runes_of_ascii "// @lengthOf(
+Eval vm_compute in ("<<<M552>>>" ++ check (runes_of_ascii "packet uint8x
+{ match pack
+    as msg_type	{
+    0123456789 :	float
+}
+,
+} packet //	t
+na" ++ [239]%N ++ runes_of_ascii "ve
+    { } options {packetx
+    = '\x00'	; u128= ""a	b""  ; }
+")).
+Eval vm_compute in ("<<<M538>>>" ++ check (runes_of_ascii "packet uint8x
+{ match pack
+    as msg_type	{
+    0123456789 :	float
+}
+,
+} packet //	t
+a1
+    { } options {packetx
+    = '\x00'	%; u128= ""a	b""  ; }
+")).
+Eval vm_compute in ("<<<M477>>>" ++ check (runes_of_ascii "packet uint8x
+{ match pack
+    as msg_type	{
+    0123456789 :	float
+}
+,
+} packet //	t
+a1
+    { options } {packetx
+    = '\x00'	; u128= ""a	b""  ; }
+")).
+Eval vm_compute in ("<<<M676>>>" ++ check (runes_of_ascii "// @lengthOf(
 packet i8i8 { u128 o , }
 options { MetaDataX = true;
-    BodyLength =""packet"" x_y_z= 007
-crc //x
-= ""abc"" 
-    msg_type =
-i16 }")).
-Eval vm_compute in ("<<<M697>>>" ++ check (runes_of_ascii "// @lengthOf(
-packet i8i8 { u128 o , }
-, { MetaDataX = true;
-    BodyLength =""packet"" x_y_z= 007
+    BodyLength =""packet"" x_y_z x_y_z= 007
 crc //x
 = ""abc"" ;
     msg_type =
 i16 }")).
-Eval vm_compute in ("<<<M1554>>>" ++ check (runes_of_ascii "packet A {
-    match k as n {
-        [
-            22, 4, 66, ""a"", ""c c"",
-            ""e""
-        ] : B,
-        2 : C,
-    },
-}")).
-Eval vm_compute in ("<<<M34>>>" ++ check (runes_of_ascii "options {
-Logon = 0 } options { msg_type = 3
-    MetaDataX =
-    // " ++ [128512]%N ++ runes_of_ascii " emoji
-    int8
-    uint8x=""""
-    ;
-    As = '0' }")).
-Eval vm_compute in ("<<<M1162>>>" ++ check (runes_of_ascii "MetaData leftPad { chars MetaDataX , } packet repeatCount {
-// c
-char[ 255 ] uint8x `" ++ [233]%N ++ runes_of_ascii "` , } MetaData pack { As Foo , }")).
-Eval vm_compute in ("<<<M1458>>>" ++ check (runes_of_ascii "packet A {
-    Inner {
-        u8 x `
-        `,
-        Deep {
-            u8 y `
-            `,
-        },
-    },
-}")).
-Eval vm_compute in ("<<<M25>>>" ++ check (runes_of_ascii "packet stringy	{
-    } // packet A { u8 x, }
-packet
-    u128
-    { u16 len@lengthOf( u128)	,
-    //x
-    }
-")).
-Eval vm_compute in ("<<<M898>>>" ++ check (runes_of_ascii "packet A {
-  match k as n {
-    [""a"", 22, ""c c"", 4, ""e"", 66, ""g"", 8, ""i"", 10, ""k""] : B
-    2 : C
-  },
-}")).
-Eval vm_compute in ("<<<M634>>>" ++ check (runes_of_ascii "
-packet
-    asx {matc@lengthOfh u128 as lengthOf
-{
-//	t
-// `tick` ""quote"" 'q'
-255 : x ,
-    } ,	}")).
-Eval vm_compute in ("<<<M605>>>" ++ check (runes_of_ascii "
-packet
-    asx {match u128 as lengthOf
-{
-//	t
-// `tick` ""quote"" 'q'
-255 : repeat ,
-    } ,	}")).
-Eval vm_compute in ("<<<M598>>>" ++ check (runes_of_ascii "
-packet
-    asx {match u128 as lengthOf
-{
-//	t
-// `tick` ""quote"" 'q'
-255 : : x ,
-    } ,	}")).
-Eval vm_compute in ("<<<M564>>>" ++ check (runes_of_ascii "
-packet
-    asx match{ u128 as lengthOf
-{
-//	t
-// `tick` ""quote"" 'q'
-255 : x ,
-    } ,	}")).
-Eval vm_compute in ("<<<M595>>>" ++ check (runes_of_ascii "
-packet
-    asx {match u128 as lengthOf
-{
-//	t
-// `tick` ""quote"" 'q'
-: : x ,
-    } ,	}")).
-Eval vm_compute in ("<<<M390>>>" ++ check (runes_of_ascii "root packet SimpleMessage {
-	uint16 MsgType `" ++ [28040; 24687; 31867; 22411]%N ++ runes_of_ascii "`,
-	string JsonBody `Json" ++ [23383; 31526; 20018; 28040; 24687; 20307]%N ++ runes_of_ascii "`,
-}")).
-Eval vm_compute in ("<<<M1305>>>" ++ check (runes_of_ascii "packet orderItem {
-    u8 a,
+Eval vm_compute in ("<<<M520>>>" ++ check (runes_of_ascii "packet uint8x
+{ match pack
+    as msg_type	{
+    0123456789 :	float
 }
-root packet newOrder {
-    orderItem,
-    u8 x,
-}
+,
+} packet //	t
+a1
+    { } options {packetx
+    = '\x00'	; u128=   ; }
 ")).
-Eval vm_compute in ("<<<M743>>>" ++ check (runes_of_ascii "int16 zchar[ } `doc` char u16 uint16 true false u8 msg_type """ ++ [233]%N ++ runes_of_ascii "t" ++ [233]%N ++ runes_of_ascii """ ""a\\"" pack")).
-Eval vm_compute in ("<<<M822>>>" ++ check (runes_of_ascii "packet A {
-  match k as n {
-    [1, 22, ""c c"", 4, 5] : B
-    2 : C
-  },
-}")).
-Eval vm_compute in ("<<<M791>>>" ++ check (runes_of_ascii "packet A {
-  match k as n {
-    [1, ""bb"", 007] : B,
-    2 : C
-  },
-}")).
-Eval vm_compute in ("<<<M838>>>" ++ check (runes_of_ascii "packet A { Inner { match k as n { [1,22,007,4,5,66] : B, }, }, }")).
-Eval vm_compute in ("<<<M314>>>" ++ check (runes_of_ascii "root packet string_{
-char[] matchKey ,
-} packet x {
-    } 	 ")).
-Eval vm_compute in ("<<<M774>>>" ++ check (runes_of_ascii "packet A {
-  match k as n {
-    [1] : B
-    2 : C
-  },
-}")).
-Eval vm_compute in ("<<<M1204>>>" ++ check (runes_of_ascii "packet body {
-// c
-i32 f32a `{ , }` , } options { }")).
-Eval vm_compute in ("<<<M1243>>>" ++ check (runes_of_ascii "root packet P {
-    repeat char cs,
-    u8 x,
+Eval vm_compute in ("<<<M490>>>" ++ check (runes_of_ascii "packet uint8x
+{ match pack
+    as msg_type	{
+    0123456789 :	float
 }
+,
+} packet //	t
+a1
+    { } options {
+    = '\x00'	; u128= ""a	b""  ; }
 ")).
-Eval vm_compute in ("<<<M1819>>>" ++ check (runes_of_ascii "root
+Eval vm_compute in ("<<<M1260>>>" ++ check (runes_of_ascii "
 
-    packet 
-P  {
-    string
-s 
+  packet
+
+B
+    {
+
+u8
+	a
+
+,
+    }root
+packet
+P{ u8 K  , u8
+
+L @lengthOf(
+	Body )
+,  match
+
+K
+    as Body
+{
+
+    1  :  B
+	,  },
+    } ")).
+Eval vm_compute in ("<<<M1298>>>" ++ check (runes_of_ascii "packet
+A
+{ 
+u8 a,
+}
+
+packet
+    B {
+
+u16  b
+,} 
+root	packet	P
+{ u8
+K
+
+,
+
+    match	K
+
+as M	{1
+    :
+A,
+
+1	: 
+B 
 , }
+,
+
+    }
+
 ")).
-Eval vm_compute in ("<<<M1096>>>" ++ check (runes_of_ascii "packet A { u8 x,// a
+Eval vm_compute in ("<<<M1851>>>" ++ check (runes_of_ascii "
+packet  A{ 
+match k
 
-
-// b
-
- u8 y, }")).
-Eval vm_compute in ("<<<M1043>>>" ++ check (runes_of_ascii "packet A {
- u8 x `d 	`, // c 	
-}")).
-Eval vm_compute in ("<<<M1028>>>" ++ check (runes_of_ascii "packet A {
- u8 x `d" ++ [8287]%N ++ runes_of_ascii "`, // c" ++ [8287]%N ++ runes_of_ascii "
-}")).
-Eval vm_compute in ("<<<M1442>>>" ++ check (runes_of_ascii "
-packet	A
+as
+    n
 	{
-    }// c x
+    ""\
+"":  B , [ ""\
+""  ,
+1 
+]	:
+C
+
+    , [ 
+1
+
+,  2 ,	3	, 
+4, 
+5  ,""\
+"" ]	:  D  ,	} ,}
+
 ")).
-Eval vm_compute in ("<<<M1104>>>" ++ check (runes_of_ascii "
+Eval vm_compute in ("<<<M1146>>>" ++ check (runes_of_ascii "MetaData leftPad
 // c
-MetaData tag { }")).
-Eval vm_compute in ("<<<M1137>>>" ++ check (runes_of_ascii "MetaData u { }
+{ chars MetaDataX , } packet repeatCount { char[ 255 ] uint8x `" ++ [233]%N ++ runes_of_ascii "` , } MetaData pack { As Foo , }")).
+Eval vm_compute in ("<<<M1178>>>" ++ check (runes_of_ascii "MetaData leftPad { chars MetaDataX , } packet repeatCount { char[ 255 ] uint8x `" ++ [233]%N ++ runes_of_ascii "` , } MetaData
 // c
-")).
-Eval vm_compute in ("<<<M996>>>" ++ check (runes_of_ascii "packet A {
+pack { As Foo , }")).
+Eval vm_compute in ("<<<M1619>>>" ++ check (runes_of_ascii "MetaData msg_type {
 }
-// c" ++ [5760]%N)).
-Eval vm_compute in ("<<<M1584>>>" ++ check (runes_of_ascii "packet
-packetx {
+
+root packet A {
+    repeat i32 leftPad `it's`,
+}
+
+root packet a1 {
+    char[255] falsey,
 }")).
-Eval vm_compute in ("<<<M11>>>" ++ check (runes_of_ascii "packet zchar { }")).
-Eval vm_compute in ("<<<M732>>>" ++ check (runes_of_ascii "// a
-// b
+Eval vm_compute in ("<<<M881>>>" ++ check (runes_of_ascii "packet A {
+  match k as n {
+    [""a"", ""bb"", ""c c"", ""d"", ""e"", ""f"", ""g"", ""h"", ""i"", ""j""] : B
+    2 : C
+  },
+}")).
+Eval vm_compute in ("<<<M683>>>" ++ check (runes_of_ascii "// @lengthOf(
+packet i8i8 { u128 o , }
+options { MetaDataX = true;
+    BodyLength =""packet"" x_y_z= 007")).
+Eval vm_compute in ("<<<M899>>>" ++ check (runes_of_ascii "packet A {
+  match k as n {
+    [1, 22, ""c c"", 4, 5, ""f"", 7, 8, ""i"", 10, 11] : B,
+    2 : C
+  },
+}")).
+Eval vm_compute in ("<<<M119>>>" ++ check (runes_of_ascii "packet u{ @tag(10 // a // b
+) tag  @lengthOf( A
+// " ++ [128512]%N ++ runes_of_ascii " emoji
+// a // b
+) , repeat options1 ,  }")).
+Eval vm_compute in ("<<<M613>>>" ++ check (runes_of_ascii "
+packet
+    asx {match u128 as lengthOf
+{
+//	t
+// `tick` ""quote"" 'q'
+255 : x ,
+    } } ,	}")).
+Eval vm_compute in ("<<<M594>>>" ++ check (runes_of_ascii "
+packet
+    asx {match u128 as lengthOf
+{
+//	t
+// `tick` ""quote"" 'q'
+: 255 x ,
+    } ,	}")).
+Eval vm_compute in ("<<<M828>>>" ++ check (runes_of_ascii "packet A {
+  match k as n {
+    [""a"", ""bb"", ""c c"", ""d"", ""e"", ""f""] : B,
+    2 : C
+  },
+}")).
+Eval vm_compute in ("<<<M866>>>" ++ check (runes_of_ascii "packet A {
+  match k as n {
+    [1, 22, 007, 4, 5, 66, 7, 8, 9] : B
+    2 : C
+  },
+}")).
+Eval vm_compute in ("<<<M823>>>" ++ check (runes_of_ascii "packet A {
+  match k as n {
+    [""a"", ""bb"", 007, ""d"", ""e""] : B,
+    2 : C
+  },
+}")).
+Eval vm_compute in ("<<<M826>>>" ++ check (runes_of_ascii "packet A {
+  match k as n {
+    [1, 22, 007, 4, 5, 66] : B,
+    2 : C
+  },
+}")).
+Eval vm_compute in ("<<<M1658>>>" ++ check (runes_of_ascii "  packet	A
+
+{ }
+packet B
+
+    { 
+} MetaData
+M
+{
+
+    }options {
+
+}
+
 ")).
-Eval vm_compute in ("<<<M56>>>" ++ check (runes_of_ascii " 	 ")).
+Eval vm_compute in ("<<<M449>>>" ++ check (runes_of_ascii "packet uint8x
+{ match pack
+    as msg_type	{
+    0123456789 :	float")).
+Eval vm_compute in ("<<<M1101>>>" ++ check (runes_of_ascii "// top
+MetaData
+    // c0
+tag
+    // c1
+{
+    // c2
+}
+    // c3
+")).
+Eval vm_compute in ("<<<M954>>>" ++ check (runes_of_ascii "packet A {
+    B b `
+x`,
+    B `
+x`,
+    repeat B bs `
+x`,
+}")).
+Eval vm_compute in ("<<<M1070>>>" ++ check (runes_of_ascii "packet A { match k as n { 1 : B // a // b 2 : C }, }")).
+Eval vm_compute in ("<<<M1212>>>" ++ check (runes_of_ascii "packet body { i32 f32a `{ , }` ,
+// c
+} options { }")).
+Eval vm_compute in ("<<<M1286>>>" ++ check (runes_of_ascii "
+
+  root
+    packet P{ 
+string
+	s
+
+    , }
+")).
+Eval vm_compute in ("<<<M940>>>" ++ check (runes_of_ascii "root packet A {
+    u8 x `a
+    b
+  c`,
+}")).
+Eval vm_compute in ("<<<M1068>>>" ++ check (runes_of_ascii "options { a = 1 // c b = 2; // d}")).
+Eval vm_compute in ("<<<M1595>>>" ++ check (runes_of_ascii "packet A {
+    u8 x `d" ++ [8192]%N ++ runes_of_ascii "`,// c" ++ [8192]%N ++ runes_of_ascii "
+}")).
+Eval vm_compute in ("<<<M1058>>>" ++ check (runes_of_ascii "packet A {
+ u8 x `d" ++ [6158]%N ++ runes_of_ascii "`, // c" ++ [6158]%N ++ runes_of_ascii "
+}")).
+Eval vm_compute in ("<<<M1576>>>" ++ check (runes_of_ascii "  packet	A  { }
+
+// c 
+ 
+")).
+Eval vm_compute in ("<<<M51>>>" ++ check (runes_of_ascii "options {} // " ++ [128512]%N ++ runes_of_ascii " emoji")).
+Eval vm_compute in ("<<<M1042>>>" ++ check (runes_of_ascii "// c 	
+packet A {
+}")).
+Eval vm_compute in ("<<<M1012>>>" ++ check (runes_of_ascii "// c" ++ [8232]%N ++ runes_of_ascii "
+packet A {
+}")).
+Eval vm_compute in ("<<<M979>>>" ++ check (runes_of_ascii "packet A {
+}// c" ++ [12288]%N)).
+Eval vm_compute in ("<<<M378>>>" ++ check (runes_of_ascii "// @lengthOf(
+
+")).
+Eval vm_compute in ("<<<M561>>>" ++ check (runes_of_ascii "
+packet")).
+Eval vm_compute in ("<<<M765>>>" ++ check (runes_of_ascii "/" ++ [65533; 65533; 65533]%N)).
